@@ -301,7 +301,12 @@ def main():
                              'checking, simulation, trace validation); Python drivers under harness/ run the real '
                              'pytenet code from /repo, record traces and replay TLC-generated behaviours')],
                checks=checks,
-               notes='Repairs of genuine defects are fix: commits in /repo, listed in known_findings.json as fixed.',
+               notes=('Repairs of genuine defects are fix: commits in /repo (five), listed in known_findings.json as fixed; one known finding (C09). '
+                      'Every trace specification has two levels of clauses (DESIGN.md 1.3): clauses of the property, and Strict-only clauses that '
+                      'describe the code beyond the property (diagnostics "spec: ..."). A trace that only leaves the specification is reported as a '
+                      'non-fatal SPEC-DEVIATION line; VIOLATION lines and exit status 1 are reserved for clauses of the property the check decides. '
+                      'VERIF_REPO / VERIF_OUT redirect the library tree and the evidence directory (mutant tools); Apalache is used for two '
+                      'inductive invariants (C19 every tier, C02 thorough tier) when apalache-mc is on PATH.'),
                not_applicable=na)
     with open(os.path.join(VERIF, 'MANIFEST.json'), 'w') as f:
         json.dump(man, f, indent=1)
